@@ -250,6 +250,6 @@ pub fn build() -> Property {
                (+ DATA in the data view) with offset, the ten bytes and attributes (TDH trigger kind SOC > internal > PhT > other, Cont., No data / Data!, orbit_BC; TDT Complete / Split and worst lane status; DDW worst lane status); words with unrecognised ids are reported on stderr. \
                Styled output with ANSI sequences removed equals the -d output line by line. Non-trivial = >= 4 word kinds shown (>= 3 RDH rows for view rdh).",
         assumptions: vec!["whitespace-insensitive comparison (columns may overflow their width)".into(), "runs that end with a FATAL message (unknown system id of the first analysed packet) are excluded".into()],
-        phases: vec![Phase { name: "cli_views", kind: PhaseKind::Gen { cases: (900, 9000), tape_len: 32 + 64 + 2000 + 4 * 4000 + 14000, f: Box::new(case) }, threads: 16 }],
+        phases: vec![Phase { name: "cli_views", kind: PhaseKind::Gen { cases: (6000, 40000), tape_len: 32 + 64 + 2000 + 4 * 4000 + 14000, f: Box::new(case) }, threads: 16 }],
     }
 }
